@@ -4,12 +4,12 @@ import glob, json, os, shutil
 import vlib
 
 
-def run_family(ck, binary, family, count, seed, strict):
+def run_family(ck, binary, family, count, seed, strict, extra_args=()):
     wd = os.path.join(vlib.BUILD, "tlc", "sub-%s-%d" % (family, os.getpid()))
     shutil.rmtree(wd, ignore_errors=True)
     os.makedirs(wd)
     prefix = os.path.join(wd, "trace")
-    rep = vlib.run_harness(binary, ["c08", "-trace-out", prefix, "-count", str(count), "-seed", str(seed), "-family", family], timeout=7000)
+    rep = vlib.run_harness(binary, ["c08", "-trace-out", prefix, "-count", str(count), "-seed", str(seed), "-family", family] + list(extra_args), timeout=7000)
     if rep.get("extra", {}).get("read_error") or rep.get("extra", {}).get("shards_failed"):
         raise vlib.Infra("c08 harness (%s): %s" % (family, rep.get("extra")))
     vlib.log("[schedules] %s: %d scenarios, %d inconclusive, %d divergences, %s" % (family, rep["evaluations"], rep["inconclusive"],
